@@ -3,7 +3,7 @@ import ps, oracle, iterlib, countlib, C04, C06, C07, C09
 
 LEVEL = "proof"
 THEOREMS = ["C10_checkedAdd_saturates", "C10_checkedSub_saturates", "C10_addSievingPrime_no_wrap", "C10_wheel_factors_small", "C10_updateNext_bounds",
-            "C10_align_never_exceeds_stop", "C10_next_never_wraps", "C10_next_after_largest", "C10_no_prime_above_maxprime", "C10_largest_prime_reduced"]
+            "C10_align_never_exceeds_stop", "C10_next_never_wraps", "C10_next_after_largest", "C10_no_prime_above_maxprime", "C10_largest_prime_reduced", "C10_maxprime64_is_prime", "C10_largest_prime_proved", "C10_next_after_largest_proved"]
 ASSUMPTIONS = [
     "largest_prime_hyp (2^64-59 is the largest prime below 2^64) in C10_next_after_largest: literature fact",
     "the segment-bound saturation of Erat (segmentLow/segmentHigh) is tied by correspondence (multi-segment intervals ending at 2^64-1), not yet by a Coq theorem",
